@@ -14,11 +14,16 @@ RULE = ("scenarios taken from the generators of the serialiser / parser families
         "and through different path spellings. distinct = distinct protocol lines")
 PROVED = ("the masks of unassigned bytes of all 14 records / default objects, re-measured from the current sources on every run, are "
           "empty, hence each record's serialised image is independent of the garbage oracle (and a non-empty mask provably would make it "
-          "depend on it); VOL and CLM archive bytes are invariant under permutation of the inputs; every serialiser and parser model of "
-          "C01-C10 is a function of the logical input alone")
+          "depend on it); VOL and CLM archive bytes are invariant under permutation of the inputs; VOL and CLM archive bytes (or the "
+          "refusal) are invariant under re-spelling the input paths: both writers factor through (GetFilename(path), content), "
+          "for CLM unconditionally, for VOL provided the output path is PathsAreEqual to no input in either spelling (that refusal "
+          "is the only thing that looks at the spelling; without the proviso: equal bytes whenever both are accepted, and a one-sided "
+          "refusal is that one); every serialiser and parser model of C01-C10 is a function of the logical input alone")
 PARTIAL = ("a read of uninitialised memory that is not a byte of one of the measured records (e.g. a local buffer copied partially) is "
-           "visible only to the three-process comparison; path-spelling independence is checked by the run, not by a theorem (the "
-           "output-equals-input refusal legitimately depends on the spelling)")
+           "visible only to the three-process comparison; the spelling theorem is about the path model (Op2Model/Path.lean, tied to "
+           "libstdc++ by the std-fspath correspondence group), its hypothesis is 'same GetFilename', which is proved for 'dir/name' "
+           "with dir != \"/\" and a plain name; spellings whose last component is not the name (trailing '/', 'name/.') are different "
+           "logical inputs")
 TRUSTED = ["ASan's malloc_fill_byte / max_malloc_fill_size and g++'s -ftrivial-auto-var-init really change what fresh memory holds",
            "in-place construction over poisoned storage (guaranteed copy elision + NRVO in g++ 12)"]
 ASSUMPTIONS = ["determinism across OS-level nondeterminism other than memory content and addresses (directory order, time) is out of scope"]
